@@ -33,6 +33,7 @@ type Profile struct {
 	NoFieldFn     bool // no _.Field shorthand
 	InlineRhsOnly bool // tinyfo: a let's right-hand side must start on the let line
 	NoElif        bool
+	NoShadow      bool // no let that reuses the name of an outer variable
 }
 
 var Full = Profile{Name: "full", Probes: true, Lambdas: true, LocalFuncs: true, StringMatch: true, Interp: true, MulDiv: true, Tuple3: true,
@@ -66,6 +67,7 @@ type varInfo struct {
 type scope struct {
 	vars   []*varInfo
 	parent *scope
+	params bool // holds parameters / a case variable: same Go scope as the block that is its body
 }
 
 func (s *scope) child() *scope { return &scope{parent: s} }
@@ -1125,6 +1127,7 @@ func (g *Gen) suppliedArg(sc *scope, t *Type, depth int, pipeStage bool) *Expr {
 func (g *Gen) lambda(sc *scope, params []*Type, ret *Type, depth int, unitBody bool) *Expr {
 	g.label("lambda")
 	inner := sc.child()
+	inner.params = true
 	e := &Expr{K: "lambda", T: TFunc(params, ret)}
 	taken := map[string]bool{}
 	for _, pt := range params {
@@ -1234,7 +1237,7 @@ func (g *Gen) unitExpr(sc *scope, depth int) *Expr {
 }
 
 // Tiny is the early-Folang subset tinyfo accepts (property C17).
-var Tiny = Profile{Name: "tinyfo", Probes: true, Tinyfo: true, NoInlineIf: true, NoFieldFn: true, InlineRhsOnly: true,
+var Tiny = Profile{Name: "tinyfo", Probes: true, Tinyfo: true, NoInlineIf: true, NoFieldFn: true, InlineRhsOnly: true, NoShadow: true,
 	MaxUnits: 6, MaxDepth: 3, AnnotateAll: true}
 
 // TinyPkgInfo declares, in tinyfo's package_info dialect, every library
